@@ -1023,6 +1023,10 @@ func ruleGlobals(c *Ctx) {
 							if ia, ok := x.Addr.(*ssa.IndexAddr); ok && loadedGlobal(ia.X) == g && fn.Name() != "init" {
 								elemWrites = append(elemWrites, "element store at "+b.posOf(i))
 							}
+							// a field of the object the variable points to
+							if fa, ok := x.Addr.(*ssa.FieldAddr); ok && loadedGlobal(fa.X) == g && fn.Name() != "init" {
+								elemWrites = append(elemWrites, "store into field "+fieldOfAddr(fa).Field+" of the object it points to at "+b.posOf(i))
+							}
 						case *ssa.MapUpdate:
 							if loadedGlobal(x.Map) == g && fn.Name() != "init" {
 								elemWrites = append(elemWrites, "map update at "+b.posOf(i))
